@@ -576,6 +576,40 @@ class Grammar:
         raise ValueError(e)
 
 
+def has_int_literal(e):
+    if e[0] == "l":
+        return isinstance(e[1], int)
+    return any(has_int_literal(k) for k in kids(e))
+
+
+def twin(e, rng, force=None):
+    """the same expression with integer literals rewritten as the equal-valued reals (2 -> 2.0) and integral
+    reals as integers: same shape, same values, other integer/real kind"""
+    flipped = [False]
+
+    def go(x):
+        t = x[0]
+        if t == "l":
+            v = x[1]
+            if isinstance(v, int) and (force or rng.random() < 0.7):
+                flipped[0] = True
+                return ("l", float(v))
+            if isinstance(v, float) and v.is_integer() and abs(v) < 2 ** 31:
+                flipped[0] = True
+                return ("l", int(v))
+            return x
+        if t == "v":
+            return x
+        if t == "b":
+            return (t, x[1], go(x[2]), go(x[3]))
+        return (t, x[1], go(x[2]))
+
+    r = go(e)
+    if not flipped[0] and force is None:
+        return twin(e, rng, force=True)
+    return r if flipped[0] else None
+
+
 def kids(e):
     t = e[0]
     if t == "b":
@@ -598,6 +632,16 @@ def evars(e):
 
 def depth(e):
     return 1 + max([depth(k) for k in kids(e)]) if kids(e) else 0
+
+
+def _int_only(v):
+    if isinstance(v, bool):
+        return False
+    if isinstance(v, int):
+        return True
+    if isinstance(v, list):
+        return len(v) > 0 and all(_int_only(x) for x in v)
+    return False
 
 
 def _cps(s):
@@ -836,6 +880,12 @@ class Oracle:
             return [], f"{{{body}}}({';'.join(vs)})"
         if pos == "operand":
             return [], f",({t})"
+        if pos == "named":
+            vs = evars(e)
+            ren = {v: p for v, p in zip(vs, "xyz")}
+            body = G.text(e, ren)
+            name = "g" + hashlib.sha1(body.encode()).hexdigest()[:10]
+            return [f"{name}::{{{body}}}"], f"{name}({';'.join(vs)})"
         raise ValueError(pos)
 
     def domain_ok(self, e, pair):
@@ -890,7 +940,8 @@ class Oracle:
         from klongpy.core import KGSym
         return KGSym(name)
 
-    def check(self, e, pos, binds, history):
+    def check(self, e, pos, binds, history, prelude=None):
+        """`prelude`: programs (defs, text) evaluated earlier in this interpreter pair that the case may depend on"""
         ctx, pair = self.ctx, self.pair
         defs, text = self.program(e, pos)
         for d in defs:
@@ -929,9 +980,25 @@ class Oracle:
             ha, hb = h2.both(text)
             if not h2.same(ha, hb):
                 earlier = [[n, v, how] for n, v, how in self.prev_binds]
+        earlier_programs = None
+        if stale and earlier is None and prelude:
+            # the history that matters is another program evaluated earlier by the same interpreter
+            h3 = Pair(self.backend)
+            for n, v, how in binds:
+                h3.bind(n, v, how)
+            for pd, pt in prelude:
+                for d in pd:
+                    h3.define(d)
+                h3.both(pt)
+            for d in defs:
+                h3.define(d)
+            ha, hb = h3.both(text)
+            if not h3.same(ha, hb):
+                earlier_programs = [[pd, pt] for pd, pt in prelude]
         case = dict(kind="oracle", backend=self.backend, position=pos, expr=self.G.text(e), program=text,
                     defs=defs, bindings=[[n, klit(from_py(v)), how] for n, v, how in binds],
                     values=[[n, v, how] for n, v, how in binds], earlier_values=earlier,
+                    earlier_programs=earlier_programs,
                     history=history, minimal=self.G.text(m))
         ctx.oracle_fail(key, case, f"interpreted: {show_obs(b)}", f"compiled: {show_obs(a)}",
                         "the value with the expression compiler enabled differs from the tree-walking interpreter's")
@@ -1174,7 +1241,7 @@ def run(ctx):
     ctx.rule = ("expressions of the compilable grammar (operators taken from the regenerated admission sets, plus "
                 "never-compiled control verbs) over variables a,b and numeric literals; exhaustive to depth 1, seeded "
                 "samples of depth 2 (quick) and depth 3 (thorough); each in four positions (top level, function body, "
-                "lambda parameters, operand of `,`) under a history of 2-3 bindings drawn from the universe (ints, "
+                "lambda parameters, operand of `,`; literal-kind twins also as named functions) under a history of 2-3 bindings drawn from the universe (ints, "
                 "reals, vectors, matrices, rank 3, nested, empty; rebinding changes type/shape); both backends. "
                 "distinct = distinct (backend, position, program, bindings, history step); non-trivial = depth >= 1")
     ctx.assumptions += [
@@ -1184,6 +1251,10 @@ def run(ctx):
         "torch: float32 arithmetic of the torch interpreter vs Python floats in generated code compared within 2e-5 relative; "
         "1e100 / 1e-7 are not in the torch universe",
         "values nested deeper than one level of raggedness are outside the Lean model (still run through the two-interpreter oracle)",
+        "reals are compared within 1e-9 relative on numpy: np.add.reduce(x, initial=None) in generated code and the "
+        "interpreter's np.add.reduce(x) may order the additions of a real vector differently (last-ulp differences)",
+        "a::9223372036854775807; a+1 is a Python big integer compiled and an int64 wrap-around interpreted: outside Adm "
+        "(int64 overflow), counted as outside-domain",
     ]
     try:
         provs = check_codegen(ctx, G, drv)
@@ -1260,6 +1331,35 @@ def run_backend(ctx, G, drv, backend, quick):
             ctx.sample(dict(backend=backend, expr=G.text(e), positions=POSITIONS,
                             last_bindings=[[n, klit(from_py(v))] for n, v, _ in binds]))
 
+    # 4. literal-kind twins: two expressions of the same shape whose literals are equal in value but not in
+    #    kind (2 / 2.0, 0 / 0.0, -(1) / -(1.0)), evaluated by ONE interpreter in both orders (a fresh pair per
+    #    order), in every position incl. named functions f::{x+1} / g::{x+1.0}; kinds compared exactly
+    int_universe = [v for v in universe if from_py(v) is not None and _int_only(v)]
+    twins = [("b", "*", ("v", "a"), ("l", 2)), ("b", "+", ("v", "a"), ("l", 1)), ("b", "-", ("v", "a"), ("l", 0)),
+             ("b", "+", ("v", "a"), ("n", G.neg, ("l", 1))),
+             ("b", "*", ("b", "+", ("v", "a"), ("l", 1)), ("b", "-", ("v", "b"), ("l", 0))),
+             ("r", "+", ("b", "*", ("v", "a"), ("l", 1))), ("s", "+", ("b", "+", ("v", "a"), ("l", 0)))]
+    n_twin = (30 if quick else 300) if backend == "numpy" else (10 if quick else 80)
+    while len(twins) < n_twin:
+        e = G.rnd(rng, rng.choice([1, 2, 2, 3]), controls=0.0)
+        if has_int_literal(e) and evars(e):
+            twins.append(e)
+    for e in twins:
+        e2 = twin(e, rng)
+        if e2 is None:
+            continue
+        binds = [(n, rng.choice(int_universe), "text") for n in VARS]
+        for first, second in ((e, e2), (e2, e)):
+            o2 = Oracle(ctx, G, backend)
+            for n, v, how in binds:
+                o2.pair.bind(n, v, how)
+            done = []
+            for pos in POSITIONS + ["named"]:
+                for x in (first, second):
+                    o2.check(x, pos, binds, 0, prelude=list(done))
+                    done.append(o2.program(x, pos))
+        ctx.bump(f"{backend}:literal-kind-twins")
+
 
 def replay(ctx, case):
     x = tables_or_fallback(ctx)
@@ -1278,6 +1378,10 @@ def replay(ctx, case):
         pair.both(c["program"])
     for n, v, how in c["values"]:
         pair.bind(n, v, how)
+    for pd, pt in c.get("earlier_programs") or []:
+        for d in pd:
+            pair.define(d)
+        pair.both(pt)
     for d in c.get("defs", []):
         pair.define(d)
     a, b = pair.both(c["program"])
